@@ -363,6 +363,8 @@ macro_rules! spawn_derived {
 
                                     // generate and assign new value
                                     loading.store(true, Ordering::Relaxed);
+                                    #[cfg(leptos_verif)]
+                                    crate::verif_yield("ad:loading_set");
 
                                     let (this_version, suspense_ids) = {
                                         let mut guard = inner.write().or_poisoned();
@@ -412,6 +414,8 @@ impl<T: 'static> ArcAsyncDerived<T> {
         ready_tx: Option<oneshot::Sender<()>>,
     ) {
         *value.write().await.deref_mut() = new_value;
+        #[cfg(leptos_verif)]
+        crate::verif_yield("ad:value_stored");
         Self::notify_subs(&wakers, &inner, &loading, ready_tx);
     }
 
@@ -422,6 +426,8 @@ impl<T: 'static> ArcAsyncDerived<T> {
         ready_tx: Option<oneshot::Sender<()>>,
     ) {
         loading.store(false, Ordering::Relaxed);
+        #[cfg(leptos_verif)]
+        crate::verif_yield("ad:loading_cleared");
 
         let prev_state = mem::replace(
             &mut inner.write().or_poisoned().state,
@@ -438,10 +444,14 @@ impl<T: 'static> ArcAsyncDerived<T> {
 
         // notify reactive subscribers that we're not loading any more
         for sub in (&inner.read().or_poisoned().subscribers).into_iter() {
+            #[cfg(leptos_verif)]
+            crate::verif_yield("ad:mark_sub");
             sub.mark_dirty();
         }
 
         // notify async .awaiters
+        #[cfg(leptos_verif)]
+        crate::verif_yield("ad:before_drain");
         for waker in mem::take(&mut *wakers.write().or_poisoned()) {
             waker.wake();
         }
